@@ -21,6 +21,7 @@ RULE = ('documents: generated documents of four schema families (shop, tree with
         '512 errors; an option dimension (use_defaults=False given to every entry point); a hints scenario (package-level functions with '
         'their default use of xsi:schemaLocation hints and a schema instance that covers the root namespace by import); a case = (document, route, source kind); distinct non-trivial = distinct (family, fault kind, route, '
         'source kind) combinations on invalid documents plus distinct CLI error counts')
+RULE += (' ' + 'Sources include a lazy XMLResource (verdict and multiset of error reasons) and family flat: one document per shard with hundreds of leaf records under a key / keyref, damaged at its end.')
 ASSUMPTIONS = [
     'errors are identified by (reason, index path of the element), not by object identity or message formatting',
     'package-level functions are called with use_location_hints=False and an explicit schema, as the schema methods default to',
